@@ -15,6 +15,7 @@
 package ctfe
 
 import (
+	"bytes"
 	"context"
 	"crypto/sha256"
 	"errors"
@@ -142,14 +143,28 @@ func getSignedLogRoot(ctx context.Context, client trillian.TrillianLogClient, lo
 		return nil, errors.New("no log root returned")
 	}
 	klog.V(3).Infof("%s: GetSTH <= slr=%+v", prefix, slr)
-	var currentRoot types.LogRootV1
-	if err := currentRoot.UnmarshalBinary(slr.GetLogRoot()); err != nil {
-		return nil, fmt.Errorf("failed to unmarshal root: %v", slr)
+	currentRoot, err := unmarshalLogRoot(slr)
+	if err != nil {
+		return nil, err
 	}
 	if hashSize := len(currentRoot.RootHash); hashSize != sha256.Size {
 		return nil, fmt.Errorf("bad hash size from backend expecting: %d got %d", sha256.Size, hashSize)
 	}
 
+	return currentRoot, nil
+}
+
+// unmarshalLogRoot decodes the log root of a backend response and checks that
+// it is one complete, well-formed root.
+func unmarshalLogRoot(slr *trillian.SignedLogRoot) (*types.LogRootV1, error) {
+	var currentRoot types.LogRootV1
+	if err := currentRoot.UnmarshalBinary(slr.GetLogRoot()); err != nil {
+		return nil, fmt.Errorf("failed to unmarshal root: %v", slr)
+	}
+	// UnmarshalBinary ignores anything that follows the root.
+	if canonical, err := currentRoot.MarshalBinary(); err != nil || !bytes.Equal(canonical, slr.GetLogRoot()) {
+		return nil, fmt.Errorf("trailing or non-canonical data in root: %v", slr)
+	}
 	return &currentRoot, nil
 }
 
